@@ -228,12 +228,12 @@ Section Chain.
   Proof.
     induction l1 as [|x l1 IH]; intros st Ht Hd Hc Hex b a l2 E.
     - apply (Hex b a l2). exact E.
-    - destruct st as [|x' st']; [discriminate|]. injection E as -> E.
-      apply (IH st'); try assumption.
+    - destruct st as [|x' st']; [discriminate|]. injection E as Ex E. subst x'.
+      refine (IH st' _ _ _ _ b a l2 E).
       + apply (STurns_suffix [x]). exact Ht.
       + inversion Hd; assumption.
       + intros y Hy. apply Hc. right; exact Hy.
-      + intros b' a' t Et. subst st'.
+      + intros b' a' t Et. clear E. subst st'.
         assert (Hd' := Hd). inversion Hd' as [|? ? Hd1 Hf1]; subst.
         inversion Hd1 as [|? ? Hd2 Hf2]; subst.
         apply (geoA a' b' x c).
@@ -301,15 +301,16 @@ Section Chain.
       + destruct l1 as [|y l1]; cbn in E.
         * (* the new edge (top of st', c) against an old point *)
           injection E as <- E.
+          assert (Hab' : Above c P a) by (rewrite E in Hab; exact Hab).
           destruct (R_total a p) as [Hr|[Hr|Hr]].
-          -- apply Hab; [exact Hp|]. rewrite E. cbn. auto.
-          -- apply Hab; [exact Hp|]. rewrite E. cbn. auto.
+          -- apply Hab'; auto.
+          -- apply Hab'; auto.
           -- destruct l2 as [|a' l2].
              ++ exfalso. assert (last st' d0 = a) by (rewrite E; reflexivity).
                 destruct (Hbot p Hp) as [Hq|Hq]; rewrite <- Hlast, H in Hq.
                 ** subst p. apply (R_irrefl a Hr).
                 ** apply (R_irrefl a). eapply R_trans; eauto.
-             ++ apply (geoB a' a b p).
+             ++ apply (geoB a' a c p).
                 ** rewrite E in Hd'. inversion Hd' as [|? ? _ Hf]; subst. inversion Hf; assumption.
                 ** apply Hc'. rewrite E. left; reflexivity.
                 ** exact Hr.
